@@ -687,6 +687,51 @@ fn gen_opts(messy: bool, nan: bool) -> GenOpts {
 	}
 }
 
+/// Seed-independent boundary tiles: explicit feature id 0 next to "no id" and 2^64-1; feature-less layers
+/// beside the named layer; a named layer none of whose features matches (so it becomes empty under
+/// remove_non_matching); run through re-encode and through the operation with all 8 flag combinations.
+fn boundary_cases() -> (Vec<Vec<u8>>, Vec<UpdCase>) {
+	let feat = |id: Option<u64>, tags: Vec<u32>| IFeature { id, tags, gtype: Some(1), geom: Some(vec![9, 2, 2]) };
+	let roads = |feats: Vec<IFeature>| ILayer {
+		name: b"roads".to_vec(),
+		features: feats,
+		keys: vec![b"id".to_vec(), b"name".to_vec()],
+		values: vec![IValue::Str(b"a1".to_vec()), IValue::Str(b"nomatch".to_vec()), IValue::UInt(7)],
+		extent: None,
+		version: Some(2),
+	};
+	let empty = |name: &str, extent: Option<u32>| ILayer { name: name.as_bytes().to_vec(), features: vec![], keys: vec![b"k".to_vec()], values: vec![IValue::Bool(true)], extent, version: None };
+	let pois = ILayer { name: b"pois".to_vec(), features: vec![feat(Some(0), vec![]), feat(None, vec![0, 0])], keys: vec![b"id".to_vec()], values: vec![IValue::Str(b"a1".to_vec())], extent: Some(512), version: None };
+	let tiles = vec![
+		// ids 0 / none / max, some matching
+		ITile { layers: vec![empty("water", Some(256)), roads(vec![feat(Some(0), vec![0, 0]), feat(None, vec![0, 1]), feat(Some(u64::MAX), vec![1, 2]), feat(Some(0), vec![])]), pois.clone(), empty("labels", None)] },
+		// named layer with no matching feature at all
+		ITile { layers: vec![roads(vec![feat(Some(0), vec![0, 1]), feat(Some(5), vec![0, 1])]), empty("water", None)] },
+		// named layer already empty, other layers with ids 0
+		ITile { layers: vec![pois.clone(), roads(vec![])] },
+		// only feature-less layers
+		ITile { layers: vec![empty("water", None), empty("labels", Some(8192))] },
+	];
+	let bytes: Vec<Vec<u8>> = tiles.iter().map(|t| encode_tile(t, &PLAIN)).collect();
+	let mut upd = vec![];
+	for b in &bytes {
+		for flags in 0..8u8 {
+			upd.push(UpdCase {
+				replace: flags & 4 != 0,
+				remove: flags & 2 != 0,
+				include_id: flags & 1 != 0,
+				layer: b"roads".to_vec(),
+				id_tiles: b"id".to_vec(),
+				id_data: b"key".to_vec(),
+				header: vec![b"key".to_vec(), b"new".to_vec()],
+				rows: vec![vec![cell_of("a1"), cell_of("x")], vec![cell_of("zz"), cell_of("12")]],
+				tile: b.clone(),
+			});
+		}
+	}
+	(bytes, upd)
+}
+
 fn gen_update_case(rng: &mut Rng, messy: bool) -> UpdCase {
 	let o = gen_opts(messy, false);
 	let unique = rng.chance(9, 10);
@@ -800,6 +845,14 @@ non-trivial: C11p every case; C11d valid tiles; C11u cases where the expected ou
 	let mut rng = Rng::new(args.seed);
 	for (op, arg) in prim_cases(&mut rng, args.n(400, 20000)) {
 		emit_prim(&mut out, &op, &arg);
+	}
+	// seed-independent boundary tiles
+	let (btiles, bupd) = boundary_cases();
+	for b in &btiles {
+		emit_decode(&mut out, b, None);
+	}
+	for c in &bupd {
+		emit_update(&mut out, &mut runner, c, TileCompression::Uncompressed, true);
 	}
 	// decode / encode
 	let nd = args.n(3000, 40000);
